@@ -692,10 +692,30 @@ func (x *Exec) specCall(env *SpecEnv, e *ECall) Value {
 		return sc(EMod(asTerm(arg(0)), asTerm(arg(1))))
 	case "pow2":
 		return sc(Pow2(asTerm(arg(0))))
+	case "mathPi":
+		// the exact rational value of Go's untyped constant math.Pi (what `math.Pi` denotes in the code, R-mode)
+		for _, p := range x.eng.pkgs {
+			for _, imp := range p.Types.Imports() {
+				if imp.Path() == "math" {
+					if c, ok := imp.Scope().Lookup("Pi").(*types.Const); ok {
+						if r, ok := new(big.Rat).SetString(c.Val().ExactString()); ok {
+							return sc(x.realConst(r))
+						}
+					}
+				}
+			}
+		}
+		fail("spec: math.Pi not available")
 	case "cabs":
 		return sc(App(SReal, "cabs", asTerm(arg(0))))
 	case "cx":
 		return sc(App(SCx, "cx", ToReal(asTerm(arg(0))), ToReal(asTerm(arg(1)))))
+	case "cmul":
+		return sc(App(SCx, "cmul", asTerm(arg(0)), asTerm(arg(1))))
+	case "cadd":
+		return sc(App(SCx, "cadd", asTerm(arg(0)), asTerm(arg(1))))
+	case "csub":
+		return sc(App(SCx, "csub", asTerm(arg(0)), asTerm(arg(1))))
 	case "popcount8":
 		return sc(App(SInt, "popcount8", asTerm(arg(0))))
 	case "wrap64":
@@ -809,8 +829,12 @@ func (x *Exec) coerceSpecArg(env *SpecEnv, v Value, ty string, fn string) Term {
 			fail("spec: %s: slice passed where %s expected", fn, ty)
 		}
 		st := env.st
-		if a.Pre {
-			st = env.preSt
+		if a.Pre && env.preSt != nil {
+			// x@pre: contents in the state the contract's "pre" refers to — the function's entry state inside the
+			// function, the state just before the call when a callee's contract is applied at a call site
+			b := a
+			b.Pre = false
+			return x.seqOf(env.preSt, b)
 		}
 		return x.seqOf(st, a)
 	case SeqV:
